@@ -20,6 +20,14 @@ func (w *verifC14World) pickPeer() int {
 // channel operand of REGISTER/UNREGISTER: none, durable, ephemeral
 func verifC14PickOptChan() int { return verifrt.Choice("chan", verifC14NC+1) - 1 }
 
+// topic operand of an operation (onlyTopic >= 0: the harness aims every operation at one topic)
+func (w *verifC14World) pickTopic() int {
+	if w.onlyTopic >= 0 {
+		return w.onlyTopic
+	}
+	return verifrt.Choice("topic", verifC14NT)
+}
+
 func (w *verifC14World) step(kind int) {
 	switch kind {
 	case 0: // a new connection identifies; or an identified one sends IDENTIFY again
@@ -28,48 +36,54 @@ func (w *verifC14World) step(kind int) {
 			verifrt.Assume(p == 0 || w.peers[0].info != nil)
 			w.connect(p)
 		} else {
-			w.identifyAgain(p)
+			w.violate(p, verifrt.Choice("violation", verifrt.Bound("violations", 1, 3)))
 		}
 	case 1:
 		p := w.pickPeer()
-		w.register(p, verifrt.Choice("topic", verifC14NT), verifC14PickOptChan())
+		w.register(p, w.pickTopic(), verifC14PickOptChan())
 	case 2:
 		p := w.pickPeer()
-		w.unregister(p, verifrt.Choice("topic", verifC14NT), verifC14PickOptChan())
+		w.unregister(p, w.pickTopic(), verifC14PickOptChan())
 	case 3:
 		w.ping(w.pickPeer())
 	case 4:
 		w.disconnect(w.pickPeer())
 	case 5:
-		w.createTopic(verifrt.Choice("topic", verifC14NT))
+		w.createTopic(w.pickTopic())
 	case 6:
-		w.deleteTopic(verifrt.Choice("topic", verifC14NT))
+		w.deleteTopic(w.pickTopic())
 	case 7:
-		w.createChannel(verifrt.Choice("topic", verifC14NT), verifrt.Choice("chan", verifC14NC))
+		w.createChannel(w.pickTopic(), verifrt.Choice("chan", verifC14NC))
 	case 8:
-		w.deleteChannel(verifrt.Choice("topic", verifC14NT), verifrt.Choice("chan", verifC14NC))
+		w.deleteChannel(w.pickTopic(), verifrt.Choice("chan", verifC14NC))
 	case 9:
-		w.tombstone(verifrt.Choice("topic", verifC14NT), verifrt.Choice("node", 3))
+		w.tombstone(w.pickTopic(), verifrt.Choice("node", 3))
 	}
 }
 
 func (w *verifC14World) witnesses() {
-	verifrt.Reach("history-ephemeral-key-removed-by-last-unregister", w.sawEphemeralRemoved)
-	verifrt.Reach("history-disconnect-ran-exit-path", w.sawDisconnect)
-	verifrt.Reach("history-fatal-error-ended-connection", w.sawFatal)
+	w.reach(3, "history-ephemeral-key-removed-by-last-unregister", w.sawEphemeralRemoved)
+	w.reach(2, "history-disconnect-ran-exit-path", w.sawDisconnect)
+	w.reach(2, "history-fatal-error-ended-connection", w.sawFatal)
 	both := true
 	for p := 0; p < verifC14NP; p++ {
 		both = both && w.m.conn[p] && w.m.rt[0][p]
 	}
-	verifrt.Reach("history-two-producers-on-one-topic", both)
+	w.reach(4, "history-two-producers-on-one-topic", both)
 }
 
-// Sequentially exhaustive short histories from the empty registry: every sequence of 1..h
-// operations over 2 peers x 2 topics x 2 channels (one of each ephemeral), for every clock,
-// every inactive-producer timeout and every tombstone lifetime; then every query endpoint is
-// compared with the model.
+// Sequentially exhaustive short histories: every sequence of 1..h operations over 2 peers x
+// 2 topics x 2 channels (one of each ephemeral), for every clock, every inactive-producer
+// timeout and every tombstone lifetime; then every query endpoint is compared with the model.
+// Start: the empty registry, or peer 0 already connected (every history that does anything
+// with a producer begins with a connection; starting there buys one more free step).
 func verifC14Histories(h int) {
 	w := verifC14NewWorld()
+	start := verifrt.Choice("start", 2)
+	w.wit = h + start
+	if start == 1 {
+		w.connect(0)
+	}
 	n := 1 + verifrt.Choice("len", h)
 	for i := 0; i < n; i++ {
 		w.step(verifrt.Choice("op", verifC14Kinds))
